@@ -10,6 +10,7 @@ import WuffsVerif.Gen.C02_AxiomDefs
          | assert <e> none | assert <e> via <axiom-index> <n> (<var-index> <e>)*n
          | if <e> <stmt> <stmt> | while <n> (<pre|inv|post> <e>)*n <e> <stmt>
          | jump b <depth> | jump c <depth> | call <n> (<e> <type>)*n | cocall <n> (<e> <type>)*n
+         | callassign <lhs> <result type> <n> (<e> <type>)*n
          | yield | ret0 | ret <e> <type>
   <e>, <type>: as in the C01 driver (c / v / u / b / as / a / ix).
 
@@ -195,6 +196,14 @@ partial def parseStmt : List String → Option (FStmt × List String)
   | "call" :: n :: rest => do
     let (args, rest) ← parseArgs (← n.toNat?) rest []
     pure (.call args, rest)
+  | "callassign" :: rest => do
+    let (l, rest) ← parseExpr rest
+    let (t, rest) ← parseTy rest
+    match rest with
+    | n :: rest => do
+      let (args, rest) ← parseArgs (← n.toNat?) rest []
+      pure (.callAssign l t args, rest)
+    | [] => none
   | "cocall" :: n :: rest => do
     let (args, rest) ← parseArgs (← n.toNat?) rest []
     pure (.cocall args, rest)
